@@ -395,6 +395,40 @@ class Checker:
                        f'{what} ' + ('is on every normal path' if ok else
                                      'is skipped on some normal path'))
 
+    def any_condition(self, node):
+        """For `any(x for x in S if cond)` or `any(cond for x in S)` return
+        (cond node, iterable node); else None."""
+        if not (isinstance(node, ast.Call) and isinstance(
+                node.func, ast.Name) and node.func.id == 'any'
+                and len(node.args) == 1 and isinstance(
+                    node.args[0], (ast.GeneratorExp, ast.ListComp))):
+            return None
+        g = node.args[0]
+        if len(g.generators) != 1:
+            return None
+        gen = g.generators[0]
+        if gen.ifs:
+            if len(gen.ifs) == 1 and norm(g.elt) == norm(gen.target):
+                return gen.ifs[0], gen.iter
+            return None
+        return g.elt, gen.iter
+
+    def case_covered(self, cond, case: Sequence, ctx=None) -> bool:
+        """cond (a boolean expression node) is true whenever all atoms of
+        `case` hold: some disjunct of cond consists only of atoms of case."""
+        tree = nf(cond, True)
+        members = tree[1] if tree[0] == 'or' else [tree]
+        env = self.env(ctx if ctx is not None else cond)
+        reqs = [R(r) for r in case]
+        for m in members:
+            atoms = flatten([m]) if m[0] in ('and', 'atom') else None
+            if atoms is None or any(a[0] != 'atom' for a in atoms):
+                continue
+            if all(any(r.atom(a[1], a[2], env) for r in reqs)
+                   for a in atoms):
+                return True
+        return False
+
     def is_call_to(self, *names):
         def test(n):
             if isinstance(n, ast.Call):
